@@ -381,6 +381,114 @@ def run_seed(machine: Machine, seed: int, avoid=(),
     return plan, res
 
 
+MACHINE_FACTORY = None      # set by simphot.runner (key -> Machine)
+
+
+def _write_frame(fd, obj):
+    import pickle
+    import struct
+    blob = pickle.dumps(obj, protocol=4)
+    data = struct.pack('<Q', len(blob)) + blob
+    while data:
+        n = os.write(fd, data)
+        data = data[n:]
+
+
+def _read_exact(fd, n):
+    buf = b''
+    while len(buf) < n:
+        b = os.read(fd, n - len(buf))
+        if not b:
+            return None
+        buf += b
+    return buf
+
+
+def _read_frame(fd):
+    import pickle
+    import struct
+    head = _read_exact(fd, 8)
+    if head is None:
+        return None
+    (n,) = struct.unpack('<Q', head)
+    blob = _read_exact(fd, n)
+    return None if blob is None else pickle.loads(blob)
+
+
+class Zygote:
+    """A child forked from this process *before it ever executed library
+    code*, which executes plans on request, each in a fresh grandchild.
+
+    An execution through the zygote therefore starts from exactly the state
+    a replay process has after the standard warm-up, whatever this worker
+    has executed in the meantime.  It is used to confirm every violation
+    found by the (fast, in-worker) first execution and for every
+    re-execution made while shrinking.
+    """
+
+    def __init__(self, timeout=600):
+        import faulthandler
+        req_r, req_w = os.pipe()
+        res_r, res_w = os.pipe()
+        pid = os.fork()
+        if pid == 0:
+            try:
+                os.close(req_w)
+                os.close(res_r)
+                while True:
+                    msg = _read_frame(req_r)
+                    if msg is None:
+                        break
+                    key, plan = msg
+                    gpid = os.fork()
+                    if gpid == 0:
+                        code = 3
+                        try:
+                            faulthandler.dump_traceback_later(timeout,
+                                                              exit=True)
+                            res = execute(MACHINE_FACTORY(key), plan)
+                            slim = {k: res[k] for k in (
+                                'verdict', 'violation', 'error', 'steps',
+                                'digest')}
+                            _write_frame(res_w, slim)
+                            code = 0
+                        finally:
+                            os._exit(code)
+                    _, status = os.waitpid(gpid, 0)
+                    if status != 0:
+                        _write_frame(res_w, {
+                            'verdict': 'HARNESS', 'violation': None,
+                            'error': 'isolated execution ended without a '
+                                     f'result (wait status {status})',
+                            'steps': 0, 'digest': ''})
+            finally:
+                os._exit(0)
+        os.close(req_r)
+        os.close(res_w)
+        self.pid, self.req_w, self.res_r = pid, req_w, res_r
+
+    def execute(self, key, plan):
+        _write_frame(self.req_w, (key, plan))
+        res = _read_frame(self.res_r)
+        if res is None:
+            return {'verdict': 'HARNESS', 'violation': None,
+                    'error': 'zygote process died', 'steps': 0,
+                    'digest': ''}
+        return res
+
+
+_ZYGOTE = None
+
+
+def zygote():
+    """The zygote of this worker; must first be called before the worker
+    executes anything."""
+    global _ZYGOTE
+    if _ZYGOTE is None or _ZYGOTE[0] != os.getpid():
+        _ZYGOTE = (os.getpid(), Zygote())
+    return _ZYGOTE[1]
+
+
 def execute_isolated(machine: Machine, plan: dict) -> dict:
     """execute() in a forked child, so that re-executions (shrinking) cannot
     see library state left behind by earlier executions in this process."""
@@ -422,7 +530,7 @@ def same_class(a, b) -> bool:
 
 
 def shrink(machine: Machine, plan: dict, viol: dict, budget: int = 300,
-           deadline: float | None = None) -> tuple[dict, dict, int]:
+           deadline: float | None = None, run=None) -> tuple[dict, dict, int]:
     """Minimise ``plan`` while the same violation class persists.
 
     Returns (plan, violation, executions used).
@@ -436,7 +544,8 @@ def shrink(machine: Machine, plan: dict, viol: dict, budget: int = 300,
         if used >= budget or (deadline and time.time() > deadline):
             return False
         used += 1
-        r = execute_isolated(machine, cand)
+        r = run(cand) if run is not None else execute_isolated(machine,
+                                                                 cand)
         if r['verdict'] == 'VIOLATION' and same_class(r['violation'], viol):
             best = cand
             best_v = r['violation']
@@ -586,20 +695,34 @@ def match_known(known, pid, plan, viol):
 # --------------------------------------------------------------------------
 def run_chunk(machine: Machine, base_seed: int, indices, avoid_frac_known,
               known, shrink_budget, keep_samples, run_timeout,
-              ops_scale=1.0, isolate=True):
-    """Run the seeds of one chunk; shrink and classify violations.
+              ops_scale=1.0, machine_key=None):
+    """Run the seeds of one chunk; confirm, shrink and classify violations.
 
-    Every seed runs in its own forked child of this worker, and so does
-    every re-execution made while shrinking; the worker itself never
-    executes library code.  No process-global state of the library under
-    test (class-level caches, module globals, warning registries) can
-    therefore flow from one execution into another: an execution is a
-    function of its plan and the code only, whatever ran before it.
+    Two isolation modes (``machine.isolate_runs``):
+
+    * False (default): the first execution of a seed happens in this
+      worker.  Whatever it reports other than OK is re-executed through the
+      worker's zygote - a child forked before this worker executed
+      anything, which runs each plan in a fresh grandchild - and only
+      counts if it reproduces there; shrinking re-executes through the
+      zygote too.  Library state leaking from one run into the next can thus
+      never create a reported violation or a harness error, and a reported
+      plan is a function of its content and the code only.
+    * True (C10 fault tier, where injected exceptions may corrupt
+      process-global state): the first execution itself happens in a forked
+      child of this worker.
     """
     import faulthandler
     import pickle
     out = []
+    key = machine_key or machine.pid
+    zyg = zygote()          # forked now, while this worker is still clean
+    iso = bool(getattr(machine, 'isolate_runs', False))
     open_ids = [k['id'] for k in known if k.get('property') == machine.pid]
+
+    def isolated(plan):
+        return zyg.execute(key, plan)
+
     for i in indices:
         seed = derive(base_seed, machine.pid, i)
         # ~70 % of runs avoid the triggers of open known findings
@@ -607,47 +730,68 @@ def run_chunk(machine: Machine, base_seed: int, indices, avoid_frac_known,
         if open_ids and (derive(seed, 'avoid') % 100) < avoid_frac_known:
             avoid = tuple(open_ids)
         t0 = time.time()
-        r, w = os.pipe()
-        pid = os.fork()
-        if pid == 0:                      # child: one run, then exit
-            code = 0
-            try:
-                os.close(r)
-                faulthandler.dump_traceback_later(run_timeout, exit=True)
-                plan, res = run_seed(machine, seed, avoid, ops_scale)
-                faulthandler.cancel_dump_traceback_later()
-                if res['verdict'] != 'OK' or (i < keep_samples
-                                              and res['nontrivial']):
+        if iso:
+            r, w = os.pipe()
+            pid = os.fork()
+            if pid == 0:                      # child: one run, then exit
+                code = 0
+                try:
+                    os.close(r)
+                    faulthandler.dump_traceback_later(run_timeout, exit=True)
+                    plan, res = run_seed(machine, seed, avoid, ops_scale)
+                    faulthandler.cancel_dump_traceback_later()
                     res['plan'] = plan
-                with os.fdopen(w, 'wb') as fh:
-                    pickle.dump(res, fh, protocol=4)
-            except BaseException:  # noqa: BLE001
-                code = 3
-            finally:
-                os._exit(code)
-        os.close(w)
-        with os.fdopen(r, 'rb') as fh:
-            blob = fh.read()
-        _, status = os.waitpid(pid, 0)
-        try:
-            res = pickle.loads(blob)
-        except Exception:  # noqa: BLE001
-            res = {'verdict': 'HARNESS', 'seed': seed,
-                   'machine': machine.name, 'nops': 0, 'steps': 0,
-                   'faults': {}, 'probes': {}, 'sim_time': 0.0,
-                   'sigs': [], 'extra': {}, 'sig': '',
-                   'nontrivial': False, 'digest': '', 'violation': None,
-                   'error': f'run of seed {seed} (index {i}) ended without '
-                            f'a result, wait status {status} (per-run '
-                            'timeout or crash)'}
+                    with os.fdopen(w, 'wb') as fh:
+                        pickle.dump(res, fh, protocol=4)
+                except BaseException:  # noqa: BLE001
+                    code = 3
+                finally:
+                    os._exit(code)
+            os.close(w)
+            with os.fdopen(r, 'rb') as fh:
+                blob = fh.read()
+            _, status = os.waitpid(pid, 0)
+            try:
+                res = pickle.loads(blob)
+            except Exception:  # noqa: BLE001
+                res = {'verdict': 'HARNESS', 'seed': seed,
+                       'machine': machine.name, 'nops': 0, 'steps': 0,
+                       'faults': {}, 'probes': {}, 'sim_time': 0.0,
+                       'sigs': [], 'extra': {}, 'sig': '',
+                       'nontrivial': False, 'digest': '', 'violation': None,
+                       'error': f'run of seed {seed} (index {i}) ended '
+                                f'without a result, wait status {status} '
+                                '(per-run timeout or crash)'}
+        else:
+            faulthandler.dump_traceback_later(run_timeout, exit=True)
+            plan, res = run_seed(machine, seed, avoid, ops_scale)
+            faulthandler.cancel_dump_traceback_later()
+            res['plan'] = plan
         res['index'] = i
         res['avoid'] = list(avoid)
+        if res['verdict'] in ('VIOLATION', 'HARNESS') and 'plan' in res \
+                and res['plan'].get('ops') is not None:
+            # confirm from a clean state
+            conf = isolated(res['plan'])
+            if res['verdict'] == 'VIOLATION':
+                if not (conf['verdict'] == 'VIOLATION' and same_class(
+                        conf['violation'], res['violation'])):
+                    res['unconfirmed'] = res['violation']
+                    res['verdict'] = ('HARNESS' if conf['verdict']
+                                      == 'HARNESS' else 'UNCONFIRMED')
+                    res['error'] = conf.get('error')
+            elif conf['verdict'] != 'HARNESS':
+                # the harness error was an artefact of earlier runs
+                res['unconfirmed'] = {'invariant': 'harness', 'subject': '',
+                                      'detail': (res.get('error') or '')[
+                                          -400:]}
+                res['verdict'] = 'UNCONFIRMED'
         if res['verdict'] == 'VIOLATION':
             mplan, mviol, used = shrink(machine, res['plan'],
                                         res['violation'],
                                         budget=shrink_budget,
                                         deadline=time.time()
-                                        + run_timeout * 15)
+                                        + run_timeout * 15, run=isolated)
             res['shrink_execs'] = used
             res['min_plan'] = mplan
             res['min_violation'] = mviol
@@ -655,8 +799,10 @@ def run_chunk(machine: Machine, base_seed: int, indices, avoid_frac_known,
             if rec is not None:
                 res['verdict'] = 'KNOWN'
                 res['known_id'] = rec['id']
-            if i >= keep_samples:
-                res.pop('plan', None)
+        if not (res['verdict'] == 'HARNESS' or (
+                i < keep_samples and res.get('nontrivial')
+                and res['verdict'] == 'OK')):
+            res.pop('plan', None)
         res['wall'] = time.time() - t0
         out.append(res)
     return out
